@@ -23,10 +23,11 @@ enum { EV_MISS = 1, EV_USE = 2, EV_ENTER_MOD = 10, EV_EXIT_MOD = 11, EV_ENTER_SI
        EV_WARMUP_DONE = 20, EV_REFERENCE = 21, EV_THREADS_DONE = 22 };
 
 #define NBIG 256
+#define NHUGE 4096
 #define NSMALL 4
 #define NNTT 64
 
-static MODULE *modBig, *modSmall, *modNtt;
+static MODULE *modBig, *modSmall, *modNtt, *modHuge;
 static REIM_FFT_PRECOMP* pReimFft;
 static REIM_IFFT_PRECOMP* pReimIfft;
 static CPLX_FFT_PRECOMP* pCplxFft;
@@ -62,9 +63,9 @@ static void* al(size_t n) {
   return p;
 }
 
-#define NOPS 28
+#define NOPS 29
 static const int op_class[NOPS] = {0, 0, 0, 0, 0, 0, 0, 0, 0, 0, 0, 0, 0, 0, 1, 1, 1, 1, 1, 1, 1, 1,   // 0: module/table, 1: simple
-                                   0, 0, 0, 0, 0, 0};  // 22..27: a thread builds its OWN object, uses it and deletes it
+                                   0, 0, 0, 0, 0, 0, 0};  // 22..27: a thread builds its OWN object, uses it and deletes it
 
 // runs operation `op` on private data derived from (gseed, op) only; returns the hash of everything it produced
 static uint64_t run_op(int op) {
@@ -151,7 +152,19 @@ static uint64_t run_op(int op) {
       fill_small(a, 2 * n, &s, 60);
       vec_znx_rotate(modBig, 77, r, 2, n, a, 2, n); h = fnv(h, r, 8 * 2 * n);
       vec_znx_automorphism(modBig, 5, r, 2, n, r, 2, n); h = fnv(h, r, 8 * 2 * n);
+      vec_znx_rotate(modBig, -3, r, 2, n, r, 2, n); h = fnv(h, r, 8 * 2 * n);
       free(a); free(r);
+      break;
+    }
+    case 28: {  // large dimension, everything in place (coefficient and big-coefficient forms)
+      const uint64_t n = NHUGE;
+      int64_t* r = al(8 * 2 * n);
+      fill_small(r, 2 * n, &s, 60);
+      vec_znx_rotate(modHuge, 1234567, r, 2, n, r, 2, n); h = fnv(h, r, 8 * 2 * n);
+      vec_znx_automorphism(modHuge, 4099, r, 2, n, r, 2, n); h = fnv(h, r, 8 * 2 * n);
+      vec_znx_big_rotate(modHuge, -77, (VEC_ZNX_BIG*)r, 2, (VEC_ZNX_BIG*)r, 2); h = fnv(h, r, 8 * 2 * n);
+      vec_znx_big_automorphism(modHuge, -5, (VEC_ZNX_BIG*)r, 2, (VEC_ZNX_BIG*)r, 2); h = fnv(h, r, 8 * 2 * n);
+      free(r);
       break;
     }
     case 7: {  // NTT120 module
@@ -249,7 +262,7 @@ static uint64_t run_op(int op) {
       double* v = al(16 * m);
       fill_dbl(v, 2 * m, &s);
       if (op == 17) for (uint64_t i = 0; i < 2 * m; ++i) v[i] *= 0x1p38;
-      reim_to_znx64_simple(m, div, (op == 16) ? 40 : 60, y, v); h = fnv(h, y, 16 * m);
+      reim_to_znx64_simple(m, div, (op == 16) ? 50 : 60, y, v); h = fnv(h, y, 16 * m);
       free(y); free(v);
       break;
     }
@@ -357,7 +370,7 @@ static uint64_t run_op(int op) {
 // parameters of the calls whose thread-local table is keyed by (m, divisor, bound/overhead): reported in Enter
 static void op_params(int op, int64_t* m, double* div, int64_t* bnd) {
   *m = 0; *div = 0; *bnd = 0;
-  if (op == 16) { *m = 16; *div = 16.; *bnd = 40; }
+  if (op == 16) { *m = 16; *div = 16.; *bnd = 50; }
   if (op == 17) { *m = 16; *div = 16.; *bnd = 60; }
   if (op == 18) { *m = 16; *div = 16. * 1048576.; *bnd = 10; }
   if (op == 19) { *m = 16; *div = 1024. * 1048576.; *bnd = 16; }
@@ -395,6 +408,7 @@ int main(int argc, char** argv) {
   spqlios_verif_set_tid(0);
   modBig = new_module_info(NBIG, FFT64);
   modSmall = new_module_info(NSMALL, FFT64);
+  modHuge = new_module_info(NHUGE, FFT64);
   modNtt = new_module_info(NNTT, NTT120);
   pReimFft = new_reim_fft_precomp(32, 0);
   pReimIfft = new_reim_ifft_precomp(32, 0);
